@@ -431,8 +431,20 @@ func (w *world) orderOK(p *putOp) bool {
 	return true
 }
 
+var (
+	nCases  int
+	tStart  = time.Now()
+	tLast   = time.Now()
+	dbgRate = os.Getenv("VERIF_DEBUG") != ""
+)
+
 func execCase(c proto.Case, o *proto.Out) []string {
 	w := getWorld()
+	nCases++
+	if dbgRate && nCases%500 == 0 {
+		fmt.Fprintf(os.Stderr, "c08: %d cases, last 500 in %v, total %v\n", nCases, time.Since(tLast).Round(time.Millisecond), time.Since(tStart).Round(time.Second))
+		tLast = time.Now()
+	}
 	outs := make([]string, len(c.Ops))
 	live := false
 	nontrivial := false
@@ -533,6 +545,7 @@ func execCase(c proto.Case, o *proto.Out) []string {
 			outs[i] = "bad-op"
 		}
 	}
+	w.bodies.closeAll()
 	if nontrivial {
 		o.NonTrivial(strings.Join(c.Ops, "|") + "#" + strings.Join(outs, "|"))
 	}
